@@ -27,6 +27,12 @@ Definition rd_and (s : string) : option (list cond) :=
   | _ => None
   end.
 
+Definition rd_or (s : string) : option (list cond) :=
+  match rd_sexp s with
+  | Some (SList (Atom a :: cs)) => if String.eqb a "or" then all_some (map cond_of_sexp cs) else None
+  | _ => None
+  end.
+
 (* hints (untrusted candidates handed to the checker): numbers may be written p/q *)
 Fixpoint split_slash (t : text) : option (text * text) :=
   match t with
@@ -79,6 +85,18 @@ Definition point_ok (d : nat) (ins outs : list cond) (p : list (string * Q)) : b
         all_some (map (margin rho) (ins ++ outs)) with
   | Some ti, Some to, Some ms =>
       Bool.eqb (forallb (fun b => b) ti) (forallb (fun b => b) to)
+      || existsb (fun m => Qle_bool m (slack d p')) ms
+  | _, _, _ => true
+  end.
+
+(* the same for a disjunction: some input condition holds exactly when some output condition does *)
+Definition point_ok_or (d : nat) (ins outs : list cond) (p : list (string * Q)) : bool :=
+  let p' := canon_point p in
+  let rho := lookup p' in
+  match all_some (map (holds_b rho) ins), all_some (map (holds_b rho) outs),
+        all_some (map (margin rho) (ins ++ outs)) with
+  | Some ti, Some to, Some ms =>
+      Bool.eqb (existsb (fun b => b) ti) (existsb (fun b => b) to)
       || existsb (fun m => Qle_bool m (slack d p')) ms
   | _, _, _ => true
   end.
@@ -137,9 +155,11 @@ Definition view_e2e (entry : string) (d : nat) (conds assum : list string) (out 
     match rd_conds conds, rd_conds assum with
     | Some cs, Some asm =>
         let hs := somes (map rd_hcond hints) in
+        let is_or := String.eqb entry "or" in
         let outs := match out with
                     | Returned os => if String.eqb entry "print"
                                      then match os with [t] => rd_and t | _ => None end
+                                     else if is_or then match os with [t] => rd_or t | _ => None end
                                      else rd_conds os
                     | Raised => None
                     end in
@@ -154,10 +174,13 @@ Definition view_e2e (entry : string) (d : nat) (conds assum : list string) (out 
                             | [c], [] => (implied (filter is_eq asm) c, [])       (* the inequality was omitted *)
                             | _, _ => (false, [None])
                             end
+                       else if is_or then (check_or d hs cs os, or_paths d hs cs os)   (* a disjunction: C13_disjunction_sound *)
                        else let r := check_pre_tr d hs cs os in       (* fst r = check_pre d hs cs os: C13_traced_pre_same *)
                             (fst r, out_paths d (snd r) os) in
             {| ev_parsed := true; ev_check := fst chk;
-               ev_points := forallb (point_ok d (cs ++ asm) (os ++ asm)) points; ev_reader := reader_ok;
+               ev_points := if is_or then forallb (point_ok_or d cs os) points
+                            else forallb (point_ok d (cs ++ asm) (os ++ asm)) points;
+               ev_reader := reader_ok;
                ev_path := if fst chk then path_char (snd chk) else "-" |}
         | None => bad_view reader_ok
         end
@@ -233,7 +256,8 @@ Definition judge_path (c : case) : verdict * ascii :=
   | CGlue d flag m t out =>
       ({| v_agree := obs_eqb String.eqb (glue_model d flag m t)
                              (match out with Returned s => Returned (unesc_s s) | Raised => Raised end)
-                     && glue_readback d flag m t;
+                     && glue_readback d flag m t
+                     && forallb fl_ok_b (map fst (unesc_map m));     (* the hypothesis of C13_glue_readback *)
           v_ok := true; v_known := false |}, "g"%char)
   | CTrans text given res after =>
       ({| v_agree := trans_ok text given res after; v_ok := true; v_known := false |}, "t"%char)
@@ -250,14 +274,14 @@ Definition run2 (cases : list case) : string :=
 (* debugging aid *)
 Inductive explanation :=
 | XE2E (v : e2e_view) (ins : option (list cond))
-| XGlue (model : obs string) (readback : bool)
+| XGlue (model : obs string) (readback : bool) (table_shape : bool)
 | XTrans (found : list string) (model_text : string) (model_map : result (list (string * string))).
 
 Definition explain (c : case) : explanation :=
   match c with
   | CE2E entry d conds assum out reader_ok points hints =>
       XE2E (view_e2e entry d conds assum out reader_ok points hints) None
-  | CGlue d flag m t out => XGlue (glue_model d flag m t) (glue_readback d flag m t)
+  | CGlue d flag m t out => XGlue (glue_model d flag m t) (glue_readback d flag m t) (forallb fl_ok_b (map fst (unesc_map m)))
   | CTrans text given res after =>
       XTrans (fluents_in (unesc_s text)) (transform_text (unesc_s text) (unesc_map after))
              (transform_map (unesc_map given) (fluents_in (unesc_s text)))
